@@ -27,6 +27,8 @@ CONVEX = {
     "wedge": [(0, 0, 0), (4, 0, 0), (4, 3, 0), (0, 3, 0), (0, 0, 2), (0, 3, 2)],
     # irregular facets (kite / trapezoid), chiral, off-centre
     "skew": [(0, 0, 0), (4, 0, 0), (5, 3, 0), (1, 4, 0), (1, 1, 3), (3, 1, 3), (3, 2, 3)],
+    # cube [0,3]^3 with the corner (3,3,3) cut off: 7 faces of mixed degree
+    "cutcube": [(0, 0, 0), (3, 0, 0), (0, 3, 0), (3, 3, 0), (0, 0, 3), (3, 0, 3), (0, 3, 3), (3, 3, 2), (3, 2, 3), (2, 3, 3)],
     "cubocta": [(1, 1, 0), (1, -1, 0), (-1, 1, 0), (-1, -1, 0), (1, 0, 1), (1, 0, -1), (-1, 0, 1), (-1, 0, -1), (0, 1, 1), (0, 1, -1),
                 (0, -1, 1), (0, -1, -1)],
 }
